@@ -7,6 +7,7 @@ from .. import core
 from .. import gen as G
 
 LEVEL = "proof"
+READY = True
 CLAIM = {
     "text": "Lean theorems for every base token list and every relative pointer of the draft grammar (any number of origin/offset "
             "digits): printing a parsed relative pointer returns its text, application equals the draft's definition on reference tokens, "
